@@ -29,14 +29,22 @@ const (
 	errUnsupportedSrcObject = "source object was not valid object"
 )
 
+// withoutReservedK8sEntries removes the entries whose key is reserved for
+// Kubernetes, i.e. whose prefix (the part before the slash) is kubernetes.io,
+// k8s.io, or a subdomain of either. Keys without a prefix, and keys whose
+// prefix merely ends in those strings (e.g. notkubernetes.io/x), are kept.
 func withoutReservedK8sEntries(a map[string]string) map[string]string {
 	for k := range a {
-		s := strings.Split(k, "/")
-		if strings.HasSuffix(s[0], "kubernetes.io") || strings.HasSuffix(s[0], "k8s.io") {
+		prefix, _, found := strings.Cut(k, "/")
+		if found && (isReservedK8sDomain(prefix, "kubernetes.io") || isReservedK8sDomain(prefix, "k8s.io")) {
 			delete(a, k)
 		}
 	}
 	return a
+}
+
+func isReservedK8sDomain(prefix, domain string) bool {
+	return prefix == domain || strings.HasSuffix(prefix, "."+domain)
 }
 
 func withoutKeys(in map[string]any, keys ...string) map[string]any {
